@@ -52,6 +52,10 @@ type c08Rig struct {
 	model    [][]c08Entry
 	byObj    map[*route.Path]dxAttrs
 	attached bool
+	// wiped[i]: with add-path send, a rule-excluded path entered the selected
+	// set of prefix i (known finding c08SigWipe may have removed its siblings)
+	wiped []bool
+	sig   string // signature of the last mismatch reported by check, if it has one
 }
 
 func newC08Rig(t *rapid.T, s dxSession, pol dxPolicy, bits []kit.Bits, pfxs []*bnet.Prefix) *c08Rig {
@@ -61,12 +65,39 @@ func newC08Rig(t *rapid.T, s dxSession, pol dxPolicy, bits []kit.Bits, pfxs []*b
 	r.rec = newDxRecorder(s.AddPathN > 0)
 	r.aro.Register(r.rec)
 	r.model = make([][]c08Entry, len(pfxs))
+	r.wiped = make([]bool, len(pfxs))
 	return r
 }
 
 func (r *c08Rig) attach() {
 	r.rib.RegisterWithOptions(r.aro, r.s.clientOptions())
 	r.attached = true
+	for i := range r.pfxs {
+		r.noteWipe(i, nil)
+	}
+}
+
+// noteWipe marks prefix i when a rule-excluded path is in the selected set now
+// and was not in `before`.
+func (r *c08Rig) noteWipe(i int, before []dxAttrs) {
+	if r.s.AddPathN == 0 || !r.attached {
+		return
+	}
+	sel, _ := r.selected(i)
+	for _, a := range sel {
+		if !dxRuleBlocked(a, r.s) {
+			continue
+		}
+		old := false
+		for _, b := range before {
+			if dxCompareKey(a) == dxCompareKey(b) {
+				old = true
+			}
+		}
+		if !old {
+			r.wiped[i] = true
+		}
+	}
 }
 
 func (r *c08Rig) add(i int, a dxAttrs) {
@@ -76,9 +107,19 @@ func (r *c08Rig) add(i int, a dxAttrs) {
 	r.rib.AddPath(r.pfxs[i], obj)
 }
 
-// remove withdraws entry k of prefix i the way an Adj-RIB-In does: with a
-// path equal to the stored one (a fresh copy made by the import filter chain).
-func (r *c08Rig) remove(i, k int, sameObj bool) {
+// remove withdraws the path with attributes a from prefix i the way an
+// Adj-RIB-In does: with a path equal to the stored one (usually a fresh copy
+// made by the import filter chain).
+func (r *c08Rig) remove(i int, a dxAttrs, sameObj bool) {
+	k := -1
+	for j, e := range r.model[i] {
+		if dxCompareKey(e.attrs) == dxCompareKey(a) {
+			k = j
+		}
+	}
+	if k < 0 {
+		panic("harness: removing a path the model does not hold")
+	}
 	e := r.model[i][k]
 	r.model[i] = append(append([]c08Entry{}, r.model[i][:k]...), r.model[i][k+1:]...)
 	obj := e.obj
@@ -131,9 +172,8 @@ func (r *c08Rig) expected(i int) ([]c08Exp, string) {
 
 // c08Match compares an expected list with an observed list as sets of
 // attribute values under the per-path masks.
-func c08Match(exp []c08Exp, got []dxAttrs) string {
+func c08Match(exp []c08Exp, got []dxAttrs) (missing, extra []string) {
 	used := make([]bool, len(got))
-	var missing []string
 	for _, e := range exp {
 		found := false
 		for j, g := range got {
@@ -146,22 +186,37 @@ func c08Match(exp []c08Exp, got []dxAttrs) string {
 			missing = append(missing, fmt.Sprintf("      missing  %s\n               (export of Loc-RIB path %s)", e.attrs.canon(e.mask), e.from.canon(dxMask{})))
 		}
 	}
-	var extra []string
 	for j, g := range got {
 		if !used[j] {
 			extra = append(extra, "      surplus  "+g.canon(dxMask{}))
 		}
 	}
-	if len(missing)+len(extra) == 0 {
-		return ""
-	}
 	sort.Strings(missing)
 	sort.Strings(extra)
+	return missing, extra
+}
+
+func c08Join(missing, extra []string) string {
 	s := ""
-	for _, m := range append(missing, extra...) {
+	for _, m := range append(append([]string{}, missing...), extra...) {
 		s += "\n" + m
 	}
 	return s
+}
+
+// c08SigWipe: known finding. With add-path send, AddPath() of a path that the
+// propagation rules exclude (learned from this very peer, NO_ADVERTISE,
+// NO_EXPORT towards eBGP) removes every other path of the prefix from the
+// Adj-RIB-Out (checkPropagateUpdate -> removePathsForPrefix); pinned by the
+// repo's TestAddPathIBGP "Add 4th path ... NO_ADVERTISE".
+const c08SigWipe = "C08/addpath-wipe-on-unexportable"
+
+// dxRuleBlocked: the propagation rules (not the policy) exclude a.
+func dxRuleBlocked(a dxAttrs, s dxSession) bool {
+	if a.Static {
+		return false
+	}
+	return a.Src == s.PeerIP || a.hasComm(dxCommNoAdvertise) || (a.hasComm(dxCommNoExport) && !s.ibgp())
 }
 
 // check compares Adj-RIB-Out and recorder view with the export view.
@@ -190,15 +245,18 @@ func (r *c08Rig) check() string {
 				got = append(got, dxFromReal(p))
 			}
 		}
-		if d := c08Match(exp, got); d != "" {
-			return fmt.Sprintf("%s: Adj-RIB-Out differs from the export view of the Loc-RIB:%s", pfx, d)
+		if miss, extra := c08Match(exp, got); len(miss)+len(extra) > 0 {
+			if len(extra) == 0 && r.wiped[i] {
+				r.sig = c08SigWipe
+			}
+			return fmt.Sprintf("%s: Adj-RIB-Out differs from the export view of the Loc-RIB:%s", pfx, c08Join(miss, extra))
 		}
 		var view []dxAttrs
 		for _, a := range r.rec.view[pfx.String()] {
 			view = append(view, a)
 		}
-		if d := c08Match(exp, view); d != "" {
-			return fmt.Sprintf("%s: what the Adj-RIB-Out told its client (announcements minus withdrawals) differs from the export view of the Loc-RIB:%s", pfx, d)
+		if miss, extra := c08Match(exp, view); len(miss)+len(extra) > 0 {
+			return fmt.Sprintf("%s: what the Adj-RIB-Out told its client (announcements minus withdrawals) differs from the export view of the Loc-RIB:%s", pfx, c08Join(miss, extra))
 		}
 	}
 	dump := r.aro.Dump()
@@ -219,52 +277,7 @@ func (r *c08Rig) check() string {
 	return ""
 }
 
-// c08Mutate changes one attribute of a so that preference or ECMP membership
-// or just the identity of the path changes.
-func c08Mutate(t *rapid.T, a dxAttrs) (dxAttrs, string) {
-	b := a.clone()
-	if a.Static {
-		b.NH = 0xc0000280 + (a.NH+1)%4
-		return b, "static-nh"
-	}
-	switch rapid.IntRange(0, 6).Draw(t, "mut") {
-	case 0:
-		b.LP = a.LP + 10
-		return b, "lp+"
-	case 1:
-		if a.LP >= 10 {
-			b.LP = a.LP - 10
-		} else {
-			b.LP = a.LP + 1
-		}
-		return b, "lp-"
-	case 2:
-		b.MED = a.MED + 1
-		return b, "med+"
-	case 3:
-		b.NH = a.NH ^ 1
-		return b, "nh"
-	case 4:
-		if len(a.Comms) > 0 {
-			b.Comms = nil
-		} else {
-			b.Comms = []uint32{rapid.SampledFrom([]uint32{0xfde80009, dxCommNoExport, dxCommNoAdvertise}).Draw(t, "mutcomm")}
-		}
-		return b, "comm"
-	case 5:
-		if a.OTC != 0 {
-			b.OTC = 0
-		} else {
-			b.OTC = 64700
-		}
-		return b, "otc"
-	default:
-		b.Origin = (a.Origin + 1) % 3
-		return b, "origin"
-	}
-}
-
-func c08Run(t *rapid.T, c *kit.Case, maxSteps int) {
+func c08Run(t *rapid.T, c *kit.Case, rec *kit.Recorder, maxSteps int) {
 	s := dxGenSession(t, "s", false)
 	bits, pfxs := dxGenUniverse(t, rapid.IntRange(2, 4).Draw(t, "npfx"))
 	pol := dxGenPolicy(t, "pol", len(pfxs), s)
@@ -274,9 +287,10 @@ func c08Run(t *rapid.T, c *kit.Case, maxSteps int) {
 	if rapid.IntRange(0, 3).Draw(t, "late") == 0 {
 		attachAt = rapid.IntRange(1, steps).Draw(t, "attach_at")
 	}
+	h := newDxHist(t, len(pfxs), dxGenOpts{Extras: true})
 	c.Logf("session %v", s)
 	c.Logf("policy %v", pol)
-	c.Logf("universe %v attach_at=%d", bits, attachAt)
+	c.Logf("universe %v attach_at=%d addpath_rx=%v", bits, attachAt, h.rxList())
 	c.Class(dxKindNames[s.Kind])
 	c.ClassIf(s.AddPathN == 0, "best_only")
 	c.ClassIf(s.AddPathN > 0, "add_path")
@@ -285,120 +299,64 @@ func c08Run(t *rapid.T, c *kit.Case, maxSteps int) {
 	c.ClassIf(attachAt > 0, "late_registration")
 
 	fail := func(step int, what, msg string) {
-		t.Fatalf("after step %d (%s):\n  %s\nsession: %v\npolicy: %v", step, what, msg, s, pol)
+		t.Fatalf("after step %d (%s):\n  %s\nhistory:\n%s", step, what, msg, c.String())
 	}
 
 	if attachAt == 0 {
 		rig.attach()
 	}
-	genOpts := dxGenOpts{Extras: true}
 	for step := 1; step <= steps; step++ {
-		i := rapid.IntRange(0, len(pfxs)-1).Draw(t, "pfx")
-		hasStatic, hasBGP := false, false
-		for _, e := range rig.model[i] {
-			if e.attrs.Static {
-				hasStatic = true
-			} else {
-				hasBGP = true
-			}
-		}
-		before, _ := rig.selected(i)
-		var what string
-		op := rapid.IntRange(0, 9).Draw(t, "op")
-		if len(rig.model[i]) == 0 {
-			op = 0
-		}
-		wantStatic := hasStatic || (!hasBGP && rapid.IntRange(0, 3).Draw(t, "static") == 0)
-		msg := dxGuard(func() {
-			switch {
-			case op <= 4:
-				// add a new path (never mixing static and BGP paths under one prefix:
-				// route.Path.ECMP dereferences the BGP part of a static path — that is
-				// path selection's business, property C02/C04, and would crash here first)
-				var a dxAttrs
-				for try := 0; ; try++ {
-					switch {
-					case wantStatic:
-						a = dxGenStatic(t, "st")
-					case len(rig.model[i]) > 0 && rapid.Bool().Draw(t, "derive"):
-						base := rig.model[i][rapid.IntRange(0, len(rig.model[i])-1).Draw(t, "base")].attrs
-						a, _ = c08Mutate(t, base)
-						if rapid.Bool().Draw(t, "othersrc") {
-							peer := dxPeers[rapid.IntRange(0, len(dxPeers)-1).Draw(t, "osrc")]
-							if peer.EBGP == a.EBGP {
-								a.Src = peer.IP
-								if a.EBGP {
-									a.ASPath[0].ASNs[0] = peer.ASN
-								}
-							}
-						}
-					default:
-						a = dxGenBGP(t, "bgp", genOpts)
-					}
-					dup := false
-					for _, e := range rig.model[i] {
-						if dxCompareKey(e.attrs) == dxCompareKey(a) {
-							dup = true
-						}
-					}
-					if !dup {
-						break
-					}
-					if try == 5 {
-						what = "skip (duplicate)"
-						return
-					}
+		ops := h.next()
+		for _, op := range ops {
+			i := op.Pfx
+			before, _ := rig.selected(i)
+			what := op.String(bits)
+			c.Logf("%d %s", step, what)
+			msg := dxGuard(func() {
+				if op.Add {
+					rig.add(i, op.Attrs)
+				} else {
+					c08NoteWithdraw(c, rig, i, op.Attrs)
+					rig.remove(i, op.Attrs, op.SameObj)
 				}
-				what = fmt.Sprintf("add %v %v", bits[i], a)
-				rig.add(i, a)
-			case op <= 6:
-				// replace: withdraw + announce with one attribute changed (implicit
-				// replace as an Adj-RIB-In forwards it)
-				k := rapid.IntRange(0, len(rig.model[i])-1).Draw(t, "victim")
-				old := rig.model[i][k].attrs
-				nw, how := c08Mutate(t, old)
-				for _, e := range rig.model[i] {
-					if dxCompareKey(e.attrs) == dxCompareKey(nw) {
-						what = "skip (duplicate)"
-						return
-					}
-				}
-				what = fmt.Sprintf("replace(%s) %v %v -> %v", how, bits[i], old, nw)
-				c08NoteWithdraw(c, rig, i, old)
-				rig.remove(i, k, rapid.Bool().Draw(t, "sameobj"))
-				rig.add(i, nw)
-			default:
-				k := rapid.IntRange(0, len(rig.model[i])-1).Draw(t, "victim")
-				old := rig.model[i][k].attrs
-				what = fmt.Sprintf("remove %v %v", bits[i], old)
-				c08NoteWithdraw(c, rig, i, old)
-				rig.remove(i, k, rapid.Bool().Draw(t, "sameobj"))
+			})
+			if msg != "" {
+				fail(step, what, msg)
 			}
-		})
-		c.Logf("%d %s", step, what)
-		if msg != "" {
-			fail(step, what, msg)
+			after, hm := rig.selected(i)
+			if hm != "" {
+				fail(step, what, hm)
+			}
+			rig.noteWipe(i, before)
+			if rig.attached && op.Add && len(before) > 0 && fmt.Sprint(before) != fmt.Sprint(after) {
+				c.Class("selection_changed")
+				c.NonTrivial()
+			}
+			var cm string
+			if m := dxGuard(func() { cm = rig.check() }); m != "" {
+				cm = m
+			}
+			if cm != "" && rig.sig == c08SigWipe && rec.Known(c08SigWipe) {
+				c.Class("known_addpath_wipe")
+				return
+			}
+			if cm != "" {
+				fail(step, what, cm)
+			}
 		}
 		if step == attachAt {
-			if m := dxGuard(rig.attach); m != "" {
-				fail(step, "register Adj-RIB-Out with the Loc-RIB", m)
-			}
 			c.Logf("%d attach", step)
-		}
-		after, hm := rig.selected(i)
-		if hm != "" {
-			fail(step, what, hm)
-		}
-		if rig.attached && len(before) > 0 && len(after) > 0 && fmt.Sprint(before) != fmt.Sprint(after) {
-			c.Class("selection_changed")
-			c.NonTrivial()
-		}
-		var cm string
-		if m := dxGuard(func() { cm = rig.check() }); m != "" {
-			cm = m
-		}
-		if cm != "" {
-			fail(step, what, cm)
+			var cm string
+			if m := dxGuard(func() { rig.attach(); cm = rig.check() }); m != "" {
+				cm = m
+			}
+			if cm != "" && rig.sig == c08SigWipe && rec.Known(c08SigWipe) {
+				c.Class("known_addpath_wipe")
+				return
+			}
+			if cm != "" {
+				fail(step, "register Adj-RIB-Out with the Loc-RIB", cm)
+			}
 		}
 	}
 }
@@ -442,6 +400,27 @@ func TestVerifC08ExportView(t *testing.T) {
 	rapid.Check(t, func(t *rapid.T) {
 		c := rec.Case()
 		defer c.Done()
-		c08Run(t, c, maxSteps)
+		c08Run(t, c, rec, maxSteps)
 	})
+}
+
+// TestVerifC08WitnessAddPathWipe is the witness of finding
+// C08/addpath-wipe-on-unexportable: it fails while the defect is present.
+func TestVerifC08WitnessAddPathWipe(t *testing.T) {
+	s := dxSession{Kind: dxIBGP, AddPathN: 2, LocalASN: dxLocalASN, PeerASN: dxLocalASN, LocalIP: dxLocalIP, PeerIP: dxPeers[0].IP, Cluster: dxClusterID, RouterID: dxRouterID}
+	pfx := bnet.NewPfx(bnet.IPv4FromOctets(10, 0, 0, 0), 8).Ptr()
+	rib := locRIB.New("c08w")
+	aro := New(rib, s.attrs(), dxPolicy(nil).chain(nil))
+	rib.RegisterWithOptions(aro, s.clientOptions())
+	good := dxAttrs{Src: dxPeers[2].IP, NH: dxPeers[2].IP, EBGP: true, LP: 200, ASPath: []dxSeg{{ASNs: []uint32{64601}}}}
+	blocked := dxAttrs{Src: dxPeers[3].IP, NH: dxPeers[3].IP, EBGP: true, LP: 100, ASPath: []dxSeg{{ASNs: []uint32{64602}}}, Comms: []uint32{dxCommNoAdvertise}}
+	rib.AddPath(pfx, dxReal(good))
+	if r := aro.Get(pfx); r == nil || len(r.Paths()) != 1 {
+		t.Fatalf("setup: the exportable path was not advertised")
+	}
+	rib.AddPath(pfx, dxReal(blocked))
+	r := aro.Get(pfx)
+	if r == nil || len(r.Paths()) != 1 {
+		t.Fatalf("after adding a second, NO_ADVERTISE path to the Loc-RIB the Adj-RIB-Out (add-path 2) no longer holds the first path, which the Loc-RIB still selects: %v", aro.Dump())
+	}
 }
